@@ -141,6 +141,14 @@ def registry(rng):
                     ("onion_bordas", abel.onion_bordas.onion_bordas_transform), ("onion_peeling", abel.dasch.onion_peeling_transform),
                     ("two_point", abel.dasch.two_point_transform), ("three_point", abel.dasch.three_point_transform)):
         add(f"{name}_transform", f, half)
+    # non-default options and 1-D rows: code paths that skip a copy the default path makes are where arguments get written
+    add("onion_bordas_transform/noshift", abel.onion_bordas.onion_bordas_transform, half, shift_grid=False)
+    add("onion_bordas_transform/noshift/1d", abel.onion_bordas.onion_bordas_transform, half[0], shift_grid=False, dr=0.5)
+    add("hansenlaw_transform/1d/hold1", abel.hansenlaw.hansenlaw_transform, half[1], hold_order=1, dr=0.5)
+    add("basex_transform/nocorr/1d", abel.basex.basex_transform, half[2], correction=False, dr=2.0)
+    add("daun_transform/1d/forward", abel.daun.daun_transform, half[3], direction="forward", dr=0.5)
+    add("three_point_transform/1d", abel.dasch.three_point_transform, half[4], dr=2.0)
+    add("direct_transform/nocorr/forward", abel.direct.direct_transform, half, backend="python", correction=False, direction="forward")
     add("direct_transform", abel.direct.direct_transform, half, backend="python")
     add("direct_transform/r", abel.direct.direct_transform, half, r=np.arange(n) * 0.5, backend="python")
     add("basex_transform/forward", abel.basex.basex_transform, half, direction="forward", reg=3.0, sigma=1.5)
